@@ -144,6 +144,57 @@ def read_native(ext, path, n_atoms, precision=3):
     return None
 
 
+def read_xdr_frames(base, path):
+    """Independent reader of GROMACS .trr / .xtc files (XDR, big endian): per frame (natoms, step, time, box rows in nm, coordinates in nm or
+    None when XTC stores them compressed).  Layout as documented for the two formats, nothing taken from mdtraj."""
+    buf = open(path, "rb").read()
+    p = 0
+    out = []
+
+    def take(fmt):
+        nonlocal p
+        v = struct.unpack_from(">" + fmt, buf, p)
+        p += struct.calcsize(">" + fmt)
+        return v
+    while p < len(buf):
+        if base == "xtc":
+            magic, natoms, step = take("3i")
+            assert magic == 1995, "xtc magic %d" % magic
+            (time,) = take("f")
+            box = np.array(take("9f")).reshape(3, 3)
+            (n2,) = take("i")
+            assert n2 == natoms
+            if natoms <= 9:
+                xyz = np.array(take("%df" % (3 * natoms))).reshape(natoms, 3)
+            else:
+                take("f"); take("3i"); take("3i"); take("i")
+                (nbytes,) = take("i")
+                p += (nbytes + 3) // 4 * 4
+                xyz = None
+            out.append((natoms, step, time, box, xyz))
+        else:
+            magic, slen = take("2i")
+            assert magic == 1993, "trr magic %d" % magic
+            (n,) = take("i")
+            p += (n + 3) // 4 * 4
+            ir, e, box_size, vir, pres, top_, sym, x_size, v_size, f_size, natoms, step, nre = take("13i")
+            dbl = (box_size == 72) if box_size else (x_size == natoms * 24)
+            r = "d" if dbl else "f"
+            time, lam = take("2" + r)
+            box = np.array(take("9" + r)).reshape(3, 3) if box_size else None
+            if vir:
+                take("9" + r)
+            if pres:
+                take("9" + r)
+            xyz = np.array(take("%d%s" % (3 * natoms, r))).reshape(natoms, 3) if x_size else None
+            if v_size:
+                take("%d%s" % (3 * natoms, r))
+            if f_size:
+                take("%d%s" % (3 * natoms, r))
+            out.append((natoms, step, time, box, xyz))
+    return out
+
+
 def text_blocks(base, path, n_atoms, prec, has_box):
     """The coordinate text of a file written by mdtraj, cut out by column / line position only: per frame (driver request, raw text, kind)
     where the request renders the same values through the digit-level Lean model (Model/TextFmt.lean)."""
@@ -413,6 +464,29 @@ def run(ctx):
                                 reqs.append("txtparse %s %s" % (pk, enc)); meta.append(("txtparse", k, ext, (l.xyz[f].astype(np.float64).ravel() * unit, f, xyz[f].astype(np.float64).ravel() * unit), rp))
                             if boxline is not None:
                                 reqs.append("txt box %s" % " ".join(rat(float(v) * 10) for v in t.unitcell_lengths[f])); meta.append(("txt", k, ext, (boxline, f), rp))
+                # ---- GROMACS binary files read by an independent XDR reader: atoms, time, box vectors (rows a, b, c in nm), coordinates
+                if base in ("xtc", "trr"):
+                    try:
+                        xf = read_xdr_frames(base, path)
+                    except Exception as e:  # noqa: BLE001
+                        xf = None
+                        viol("native-layout|xdr|%s" % base, "an independent XDR reader cannot follow the .%s file: %s: %s" % (ext, type(e).__name__, str(e)[:120]), rp)
+                    if xf is not None:
+                        ctx.count("files read by the independent reader")
+                        if len(xf) != nf or any(fr[0] != na for fr in xf):
+                            viol("native-layout|count|%s" % base, "an independent reader finds %d frames of %s atoms in the .%s file, expected %d x %d" % (len(xf), sorted(set(fr[0] for fr in xf)), ext, nf, na), rp)
+                        else:
+                            tn = np.array([fr[2] for fr in xf], dtype=np.float64)
+                            if np.abs(tn - time).max() > 1e-5 * max(1.0, float(np.abs(time).max())):
+                                viol("native-time|%s%s" % (base, "" if tmode == "plain" else "|times-" + tmode), "the time stamps in the .%s file are %s, the trajectory has %s" % (ext, tn[:4], time[:4]), rp)
+                            for f, fr in enumerate(xf):
+                                want = t.unitcell_vectors[f] if cellmode != "none" else np.zeros((3, 3))
+                                if fr[3] is not None and np.abs(fr[3] - want).max() > 2e-6 * max(1.0, float(np.abs(want).max())):
+                                    viol("native-cell-vectors|%s" % base, "the box vectors in frame %d of the .%s file are %s, the trajectory's are %s" % (f, ext, np.round(fr[3], 5).tolist(), np.round(want, 5).tolist()), rp)
+                                    break
+                                if fr[4] is not None and np.abs(fr[4] - xyz[f]).max() > 2e-6 * max(1.0, mag) + (0 if base == "trr" else 5.1e-4):
+                                    viol("native-layout|value|%s|magnitude-%g" % (base, mag), "frame %d of the .%s file holds coordinates %s for %s" % (f, ext, fr[4].ravel()[:3], xyz[f].ravel()[:3]), rp)
+                                    break
                 # ---- time
                 stores_time = base in ("h5", "xtc", "trr", "nc", "gro", "dtr", "rst7", "ncrst")
                 if stores_time and np.abs(l.time - time).max() > 1e-5 * max(1.0, float(np.abs(time).max())):
